@@ -17,6 +17,15 @@
 (*            0 if it equals none); reserved = the key starts with an underscore      *)
 (*            (the statement exempts the reserved underscore-prefixed names)           *)
 (*                                                                                    *)
+(*   layout = how the written array lies in memory: "contig", "step2" (every second   *)
+(*            row of a buffer), "reversed" (negative stride), "column2d" (a column of  *)
+(*            a 2-d structured array), "zerod" (a 0-d array: one row).  The table is   *)
+(*            the array AS INDEXED; the layout must not show in the file.              *)
+(*   header values: a value read back gets the id of the written value iff it is equal *)
+(*            to it (Python ==), a float nan being matched by a float nan (the         *)
+(*            statement's "equal value" cannot hold for nan itself), also inside       *)
+(*            lists / tuples / dicts.                                                  *)
+(*                                                                                    *)
 (* The file is a state: file = [st, descr, rows, user, hlen].  Write replaces it,      *)
 (* Read returns it.  The entry points are parameters of the actions; that they all    *)
 (* denote the same two functions IS the cross-entry agreement of the property.         *)
@@ -29,6 +38,7 @@ SelfReaders == {"SFile.read", "SFile[:]", "SFile.reopen", "sfile.read", "io.read
 GivenReaders == {"Recfile.read", "Recfile.read(nrows)", "Recfile[:]", "recfile.read", "io.read(dtype)"}
                                                                                        \* are given dtype and data offset
 Readers     == SelfReaders \cup GivenReaders
+Layouts     == {"contig", "step2", "reversed", "column2d", "zerod"}
 
 \* ---- dtypes --------------------------------------------------------------------------------
 KindOK(k, sz) == CASE k \in {"i", "u"} -> sz \in {1, 2, 4, 8}
@@ -72,8 +82,10 @@ RowsBySize(f) == (NBytes(f) - f.hlen) \div ItemSize(f.descr)
 
 \* w(path, table, header=h): a non-append write replaces the file.  hl: the length of the header text
 \* (any positive number - the statement does not fix the layout; 0 for the header-less writers)
-Write(w, t, h, hl) ==
+\* lay: the memory layout of the array argument - it does not occur on the right-hand side
+Write(w, t, h, hl, lay) ==
     /\ w \in Writers /\ DescrOK(t.descr) /\ Len(t.rows) >= 1
+    /\ lay \in Layouts /\ (lay = "zerod" => Len(t.rows) = 1)
     /\ (w \in RawWriters) => (h = <<>> /\ hl = 0)
     /\ (w \in HdrWriters) => hl > 0
     /\ file' = [st |-> IF w \in HdrWriters THEN "hdr" ELSE "raw", descr |-> t.descr, rows |-> t.rows,
@@ -106,13 +118,14 @@ ReadsArePure == [][res'.op = "read" => file' = file]_brvars
 
 \* =====================================================================================================
 \* Acceptance of what the real code did (used by BinRoundTripTrace).  A record is
-\*   c   = [writer, descr, rows, hdr |-> [given : BOOLEAN, ents : Seq([k, v, reserved])]]
+\*   c   = [writer, layout, descr, rows (of the array as indexed), hdr |-> [given : BOOLEAN, ents : Seq([k, v, reserved])]]
 \*   w   = [err]                                                  the write call
 \*   obs = Seq([readers, err, descr, rows, hdr |-> [present, size, dtype_ok, descr, ents : Seq([k, v])]])
 \*         one element per distinct outcome; readers = the entry points that returned exactly it
 \*   raw = [seen : BOOLEAN, rows]       the last Len(rows)*itemsize bytes of the file, as row tokens
 \* Every clause is named; a failing clause is reported as <<entry point, clause>>.
 InScope(c) == /\ c.writer \in Writers /\ DescrOK(c.descr) /\ Len(c.rows) >= 1
+              /\ c.layout \in Layouts /\ (c.layout = "zerod" => Len(c.rows) = 1)
               /\ (c.writer \in RawWriters) => (~c.hdr.given /\ c.hdr.ents = <<>>)
               /\ \A i, j \in DOMAIN c.hdr.ents : i # j => c.hdr.ents[i].k # c.hdr.ents[j].k
 
@@ -164,13 +177,14 @@ Failing(c, w, obs, raw) ==
                    /\ \E m \in 1..(k - 1) : Constrained(c, obs[m]) # {} /\ obs[m].err = "none" /\ ~Agree(obs[m], obs[k])}}
 =====================================================================================================
 \* Acceptance of what the real code did (used by BinRoundTripTrace).  A record is
-\*   c   = [writer, descr, rows, hdr |-> [given : BOOLEAN, ents : Seq([k, v, reserved])]]
+\*   c   = [writer, layout, descr, rows (of the array as indexed), hdr |-> [given : BOOLEAN, ents : Seq([k, v, reserved])]]
 \*   w   = [err]                                                  the write call
 \*   obs = Seq([readers, err, descr, rows, hdr |-> [present, size, dtype_ok, descr, ents : Seq([k, v])]])
 \*         one element per distinct outcome; readers = the entry points that returned exactly it
 \*   raw = [seen : BOOLEAN, rows]       the last Len(rows)*itemsize bytes of the file, as row tokens
 \* Every clause is named; a failing clause is reported as <<entry point, clause>>.
 InScope(c) == /\ c.writer \in Writers /\ DescrOK(c.descr) /\ Len(c.rows) >= 1
+              /\ c.layout \in Layouts /\ (c.layout = "zerod" => Len(c.rows) = 1)
               /\ (c.writer \in RawWriters) => (~c.hdr.given /\ c.hdr.ents = <<>>)
               /\ \A i, j \in DOMAIN c.hdr.ents : i # j => c.hdr.ents[i].k # c.hdr.ents[j].k
 
